@@ -272,8 +272,27 @@ def check(plan, flags=()):
     return None, 'emitted'
 
 
+def float_warm_up():
+    """order independence: serialise, as decimal content, the whole-number FLOAT twin of every integer the generators
+    can draw (and of 0..128); what an int is written as afterwards must not depend on that history (half of the
+    shards do this first, the other half meet the integers first)"""
+    ints = set(range(-2, 129))
+    for tn in lexical.all_simple_type_names():
+        ti = lexical.info(tn)
+        if ti.union is None and ti.primitive == 'decimal':
+            for txt in lexical.valid_texts(tn):
+                ok, pv = lexical.python_value_for(tn, txt)
+                if ok and isinstance(pv, int) and abs(pv) < 10 ** 15:
+                    ints.add(pv)
+    off = driver.cls_for('offset')
+    for n in sorted(ints):
+        call(lambda n=n: off(float(n)).to_string())
+
+
 def replay_case(rec):
     inp = rec['input']
+    if inp.get('after_float_warm_up'):
+        float_warm_up()
     return check(inp['plan'], inp.get('flags', ()))[0]
 
 
@@ -293,6 +312,11 @@ def run_shard(ctx, shard, acc):
     names = sorted(n for n, t in s.element_type.items() if t not in c14.EXCLUDED_TYPES)
     roots = [r for r in ROOTS if r in names]
 
+    warm = shard['index'] % 2 == 1
+    if warm:
+        float_warm_up()
+        acc.count('shards-after-float-warm-up')
+
     def body(data):
         el = data.draw(st.sampled_from(roots)) if data.draw(st.integers(0, 4)) > 0 else data.draw(st.sampled_from(names))
         flags = set()
@@ -308,6 +332,8 @@ def run_shard(ctx, shard, acc):
             for fl in flags:
                 acc.count(fl)
         if f:
+            if warm:
+                f['input']['after_float_warm_up'] = 1
             acc.fail(f)
 
     hyp_search(acc, body, mix(ctx.seed, 'C08', shard['index']), ctx.budget(700, 5000))
